@@ -150,10 +150,14 @@ func (el *eventloop) enroll(c net.Conn, addr net.Addr, ctx any) (resCh chan Regi
 			return
 		}
 
-		var (
-			sockAddr unix.Sockaddr
-			gc       *conn
-		)
+		var gc *conn
+		defer func() {
+			if gc == nil { // failed before the connection took over the duplicated fd
+				_ = unix.Close(dupFD)
+			}
+		}()
+
+		var sockAddr unix.Sockaddr
 		switch c.(type) {
 		case *net.UnixConn:
 			sockAddr, _, _, err = socket.GetUnixSockAddr(c.RemoteAddr().Network(), c.RemoteAddr().String())
